@@ -220,6 +220,9 @@ def build(run):
         except NotFound as ex_:
             run.add(static(f"{fq}/exists", False, f"function under contract not found: {ex_}", fn=fq))
             continue
+    run.bounded("rule.Rule.trigger/templates_and_block_implication.runtime", W_N, "replay_trigger", [dict()],
+                bound="Rule.trigger on consequent templates x enabled flags x degrees (0.5, 0, 1, NaN, -0.5); a rule block activated by each of the seven activation methods: "
+                      "every activated term carries the block's implication operator object")
     run.bounded("rule.Consequent.load+modify/templates.runtime", W_N, "replay_modify", [dict(exclude_known=True, limit=4000 if run.tier == "quick" else 100000)],
                 bound="consequents of 1-3 conclusions over 3 output variables x hedge chains (none, very, not, somewhat very, not very) x enabled flags x degrees "
                       "(0.5, 0.25, 1, 0, NaN, +-inf): loaded by the real parser, every conclusion contributes its own hedged degree (hedges from the term outwards); "
